@@ -13,6 +13,11 @@ rc, out = sh("git status --porcelain"); assert out.strip() == "", out
 meta = {"id": nid, "ran": []}
 try:
     rc, out = sh(f"git apply {src}/patch.diff")
+    if rc != 0 and os.environ.get("NEUTRAL_BASE"):
+        # the change was written against an older commit: evaluate it on that tree
+        sh(f"git checkout {os.environ['NEUTRAL_BASE']} -- .")
+        rc, out = sh(f"git apply {src}/patch.diff")
+        meta["evaluated_on"] = os.environ["NEUTRAL_BASE"]
     if rc != 0:
         print(nid, "patch does not apply:", out[:300]); sys.exit(1)
     rc, out = sh("go build ./... && go test -vet=off -count=1 ./...")
@@ -25,7 +30,7 @@ try:
         meta["ran"].append({"check": cid, "exit": rc, "keys": keys[:6], "witness": [w[:600] for w in wit[:2]]})
         if rc != 0: print(f"{nid}: ALARM {cid} exit {rc} keys {keys[:3]}")
 finally:
-    sh("git checkout -- . && git clean -fdq")
+    sh("git reset -q --hard HEAD && git clean -fdq")
 dst = f"/verif/neutral/{nid}"; os.makedirs(dst, exist_ok=True)
 shutil.copy(f"{src}/patch.diff", dst + "/patch.diff")
 if os.path.exists(f"{src}/README.md"): shutil.copy(f"{src}/README.md", dst + "/README.md")
